@@ -435,8 +435,13 @@ impl TryFrom<&mut Peekable<Lexer>> for ParserNode {
                         }
                         Type::JumpLinkR(inst) => {
                             let reg1 = lex.get_reg()?;
-                            let next = lex.get_any()?;
+                            // Look at the token after the first register without
+                            // taking it: the one-register form ends here, and what
+                            // follows (the end of the line, a comment) is not part
+                            // of the instruction.
+                            let next = lex.peek_any()?;
                             return if let Ok(rs1) = next.as_reg() {
+                                lex.get_any()?;
                                 let imm = lex.get_imm()?;
                                 Ok(ParserNode::new_jump_link_r(
                                     With::new(inst, next_node),
@@ -446,6 +451,7 @@ impl TryFrom<&mut Peekable<Lexer>> for ParserNode {
                                     lex.raw_token,
                                 ))
                             } else if let Ok(imm) = next.as_imm() {
+                                lex.get_any()?;
                                 if let Ok(()) = lex.peek_any()?.as_lparen() {
                                     lex.get_any()?;
                                     let rs1 = lex.get_reg()?;
@@ -467,6 +473,7 @@ impl TryFrom<&mut Peekable<Lexer>> for ParserNode {
                                     ))
                                 }
                             } else if let Ok(()) = next.as_lparen() {
+                                lex.get_any()?;
                                 let rs1 = lex.get_reg()?;
                                 lex.expect_rparen()?;
                                 Ok(ParserNode::new_jump_link_r(
